@@ -58,6 +58,10 @@ def templates(rng, g):
     out.append(("filter-elem-uninspected", f"(({{X}} {gi()} {{X}} ㅁㄹㅎㄹ) (ㅈㅈㅎㄱ ㅎ) ㅅㅂㅎㄷ) ㅈㄷㅎㄴ"))
     out.append(("filter-kept-unused", f"ㄴ (({{X}} {gi()} ㅁㄹㅎㄷ) (ㅈㅈㅎㄱ ㅎ) ㅅㅂㅎㄷ) ㅎㄴ"))
     out.append(("pipe-arg-unused", f"{{X}} ((ㄹ ㅎ) (ㄱㅇㄱ ㅎ) ㄴㄱㅎㄷ) ㅎㄴ"))
+    out.append(("pipe-stage-result-unused", f"ㄱ (({{X}} ㅎ) ({gi()} ㅎ) ㄴㄱㅎㄷ) ㅎㄴ"))
+    out.append(("pipe-passthrough-unused", f"{{X}} ((ㄱㅇㄱ ㅎ) ({gi()} ㅎ) ㄴㄱㅎㄷ) ㅎㄴ"))
+    out.append(("pipe-3-stage-unused", f"ㄱ ((ㄱㅇㄱ ㅎ) ({{X}} ㅎ) ((ㄱㅇㄱ ㅁㄹㅎㄴ) ㅈㄷㅎㄴ ㅎ) ㄴㄱㅎㄹ) ㅎㄴ"))
+    out.append(("pipe-bool-unselected", f"ㄱ (({{X}} ㅎ) ({gi()} ㄱㅇㄱ (ㅈㅈㅎㄱ) ㅎㄷ ㅎ) ㄴㄱㅎㄷ) ㅎㄴ"))
     out.append(("spread-elem-unused", f"({{X}} {gi()} ㅁㄹㅎㄷ) ((ㄴㅇㄱ ㅎ) ㅁㅂㅎㄴ) ㅎㄴ"))
     out.append(("collect-elem-unused", f"{{X}} {gi()} ((ㄱㅇㄱ ㅈㄷㅎㄴ ㅎ) ㅂㅂㅎㄴ) ㅎㄷ"))
     out.append(("map-result-len", f"(({{X}} {{X}} ㅁㄹㅎㄷ) (ㄱㅇㄱ ㄴ ㄷㅎㄷ ㅎ) ㅁㄷㅎㄷ) ㅈㄷㅎㄴ"))
@@ -93,7 +97,7 @@ SPEC = {
     'lean': ['C03'],
     'cases': cases,
     'stream': 'C03 marked-position stream',
-    'rule': '40 templates with a marked non-strict position (unused argument, arguments and list elements passed on by fold / filter / pipe / spread / collect / map to functions that ignore them, exception contents built / thrown / caught but not inspected, unselected Boolean branch, operands after the '
+    'rule': '44 templates with a marked non-strict position (unused argument, arguments and list elements passed on by fold / filter / pipe (also results of intermediate pipe stages) / spread / collect / map to functions that ignore them, exception contents built / thrown / caught but not inspected, unselected Boolean branch, operands after the '
             'deciding one of Boolean ㄱ / ㄷ, uninspected list elements / dictionary values, map over unused elements, ㄴ after '
             'the first difference, handler of a ㅅㄷ that does not raise, captured but unused argument) × random surrounding '
             'sub-expressions × 8 payloads (user exception, type error, non-terminating recursion bounded only by the '
